@@ -45,6 +45,8 @@
 (* used to show that the invariants are not vacuous:                        *)
 (*   "direct_write"     write_safe opens the final name instead of a temp   *)
 (*   "no_unlink_extra"  _synchronize does not remove extra entries          *)
+(*   "first_sync_unchecked"  run() marks the placement ready before the     *)
+(*                      watch is registered: first sync has ce = FALSE      *)
 EXTENDS Naturals, Integers, Sequences, FiniteSets, TLC
 
 CONSTANTS Insts,          \* instance names (strings; never start with ".")
@@ -91,7 +93,8 @@ FreshTmp(dir, a) ==
 Ag0 == [pc |-> "down", first |-> TRUE, expected |-> {}, ce |-> FALSE,
         extra |-> {}, missing |-> {}, existing |-> {},
         cur |-> "", chk |-> FALSE, pd |-> EmptyFn, md |-> EmptyFn, tmp |-> "",
-        written |-> {}, disturbed |-> FALSE, err |-> FALSE, nw |-> 0, tmps0 |-> {}]
+        written |-> {}, disturbed |-> FALSE, err |-> FALSE, nw |-> 0, tmps0 |-> {},
+        start |-> FALSE, stale0 |-> {}]
 
 St0 == [zk |-> [pl |-> EmptyFn, man |-> EmptyFn], dir |-> EmptyFn, ag |-> Ag0,
         n |-> [setup |-> 0, env |-> 0, conc |-> 0, crash |-> 0, err |-> 0, sync |-> 0],
@@ -173,7 +176,11 @@ SyncBeginDo(s, exp, ce) ==
        !.missing = exp \ cur,
        !.existing = IF ce THEN cur \cap exp ELSE {},
        !.disturbed = (exp # DOMAIN s.zk.pl),
-       !.tmps0 = DotNames(s.dir)],
+       !.tmps0 = DotNames(s.dir),
+       \* this is the first sync of a process life (whatever `ce` the wiring passed) ...
+       !.start = s.ag.first,
+       \* ... and these entries are OUTDATED: older than their (re-created) placement node
+       !.stale0 = {a \in (cur \cap exp) \cap DOMAIN s.zk.pl : s.zk.pl[a].new}],
             !.n.sync = Bump(@, MaxSync)]
 
 UnlinkExtraEn(s, a) == s.ag.pc = "loop" /\ a \in s.ag.extra /\ a \in DOMAIN s.dir
@@ -314,6 +321,19 @@ Present(dir, zk, expected) ==
   \A a \in expected :
      (a \in DOMAIN zk.pl /\ a \in DOMAIN zk.man) => a \in NonDot(dir)
 
+(* C12.refresh: the synchronisation that follows a (re)start re-validates    *)
+(* the existing entries ("for all prior cache contents (stale, missing,     *)
+(* extra, OUTDATED files)"): an entry that is older than its placement node  *)
+(* -- the instance was placed again after the file was written -- belongs   *)
+(* to the files this synchronisation writes, so afterwards it "contains     *)
+(* that manifest merged with the placement data".  Stated on the CONTENT    *)
+(* (not on "was rewritten"), only where manifest and placement node exist.  *)
+Refresh(dir, zk, stale0) ==
+  \A a \in stale0 :
+     (a \in DOMAIN zk.pl /\ a \in DOMAIN zk.man) =>
+        /\ a \in NonDot(dir)
+        /\ dir[a].content = Merge(zk.man[a], zk.pl[a].data, TaskOf(a))
+
 (* C12.content: "each file written by the synchronisation contains that     *)
 (* manifest merged with the placement data"                                 *)
 Content(dir, zk, written) ==
@@ -411,7 +431,11 @@ PriorTmp(a) == /\ st.n.setup < MaxSetup
                /\ Act("PriorTmp", <<a, FreshTmp(st.dir, a)>>)
 Boot == Go /\ Act("Boot", <<>>)
 Notify(r) == EnvBudget(st) /\ Act("Notify", <<r>>)
-SyncBegin == st.n.sync < MaxSync /\ Act("SyncBegin", <<DOMAIN st.zk.pl, st.ag.first>>)
+(* EventMgr.run: _app_watch passes check_existing = not placement_ready.is_set(), *)
+(* and placement_ready is set only after the watch registration returned      *)
+SyncBegin == /\ st.n.sync < MaxSync
+             /\ Act("SyncBegin", <<DOMAIN st.zk.pl,
+                                   IF "first_sync_unchecked" \in Defects THEN FALSE ELSE st.ag.first>>)
 UnlinkExtra(a) == Go /\ Act("UnlinkExtra", <<a>>)
 ReadPlacement(a) == Go /\ Act("ReadPlacement", <<a>>)
 ReadManifest(a) == Go /\ Act("ReadManifest", <<a>>)
@@ -468,12 +492,13 @@ Spec == Init /\ [][Next]_st
 -----------------------------------------------------------------------------
 (* the clauses as invariants of the model                                   *)
 Synced == st.ag.pc = "synced"
-Undisturbed == ~st.ag.disturbed
 
+Undisturbed == ~st.ag.disturbed
 InvAtomic == AtomicState(st.dir)
 InvNoExtra == Synced => NoExtra(st.dir, st.ag.expected)
 InvPresent == (Synced /\ Undisturbed) => Present(st.dir, st.zk, st.ag.expected)
 InvContent == (Synced /\ Undisturbed) => Content(st.dir, st.zk, st.ag.written)
+InvRefresh == (Synced /\ Undisturbed /\ st.ag.start) => Refresh(st.dir, st.zk, st.ag.stale0)
 (* not part of C12, kept as a sanity check of the `finally: rm_safe`: a     *)
 (* Sync that ran to its end (or failed with an OSError other than in        *)
 (* rm_safe itself) leaves no dot file that was not there before             *)
